@@ -82,12 +82,20 @@ type Case struct {
 	// MetaVary (bit 0: LogoutBindings redirect+POST, bit 1: AuthnNameIDFormat email, bit 2: MetadataValidDuration 1h).
 	Intermediates int `json:"intermediates,omitempty"`
 	MetaVary      int `json:"meta_vary,omitempty"`
+	// IDPWant: optional attributes of the IdP's IDPSSODescriptors: WantAuthnRequestsSigned "" absent |
+	// true | false (plus errorURL / protocolSupportEnumeration when set).  Signing configured on the SP
+	// means signed messages whatever the IdP says it wants.
+	IDPWant string `json:"idp_want,omitempty"`
 }
 
 // Prior is one earlier creation on the same SP.
 type Prior struct {
 	Method string `json:"method"`
 	Msg    string `json:"msg"`
+	// Key: the key pair (sp.Key + sp.Certificate) in force at that step ("" = the case's Key): a
+	// rollover on the one long-lived ServiceProvider.  Each message must verify under the metadata
+	// published at the moment it was made.
+	Key string `json:"key,omitempty"`
 }
 
 var keys = []string{"rsa1024", "sp", "rsa3072", "rsa4096", "spec", "p384", "p521"}
@@ -238,6 +246,20 @@ func gen(t *rapid.T) Case {
 	c.IDPLayout = rapid.SampledFrom([]string{"", "", "later-descriptor"}).Draw(t, "idplayout")
 	c.RespLoc = rapid.SampledFrom([]string{"", "", "same", "other", "other"}).Draw(t, "resploc")
 	c.Intermediates = rapid.SampledFrom([]int{0, 0, 1, 2}).Draw(t, "intermediates")
+	c.IDPWant = rapid.SampledFrom([]string{"", "", "true", "false", "false"}).Draw(t, "idpwant")
+	for i := range c.Prior {
+		if rapid.Bool().Draw(t, "priorrollover") {
+			pk := rapid.SampledFrom(keys).Draw(t, "priorkey")
+			c.Prior[i].Key = pk
+			if c.Prior[i].Method != viaOptions && rapid.IntRange(0, 2).Draw(t, "priorfit") != 0 {
+				if isRSAKey(pk) {
+					c.Prior[i].Method = rapid.SampledFrom(rsaMethods).Draw(t, "priorfitm")
+				} else {
+					c.Prior[i].Method = rapid.SampledFrom(ecMethods).Draw(t, "priorfitm")
+				}
+			}
+		}
+	}
 	c.MetaVary = rapid.IntRange(0, 7).Draw(t, "metavary")
 	hasMW := c.Msg == "mw"
 	for _, pr := range c.Prior {
@@ -317,12 +339,20 @@ func buildSP0(c Case) *saml.ServiceProvider {
 			ep(saml.HTTPRedirectBinding, c.SSO, "https://idp.example.org/sso-response"), ep(saml.HTTPPostBinding, c.SSO, "https://idp.example.org/sso-response-post")},
 		ArtifactResolutionServices: []saml.Endpoint{ep(saml.SOAPBinding, artifactURL, "https://idp.example.org/artifact-response")},
 	}
+	switch c.IDPWant {
+	case "true", "false":
+		w := c.IDPWant == "true"
+		real.WantAuthnRequestsSigned = &w
+		real.ProtocolSupportEnumeration = "urn:oasis:names:tc:SAML:2.0:protocol"
+		real.ErrorURL = "https://idp.example.org/error"
+	}
 	descs := []saml.IDPSSODescriptor{real}
 	if c.IDPLayout == "later-descriptor" {
 		wrong := func(b string) []saml.Endpoint {
 			return []saml.Endpoint{{Binding: b, Location: "https://decoy.example/wrong"}}
 		}
 		descs = []saml.IDPSSODescriptor{{
+			WantAuthnRequestsSigned:    real.WantAuthnRequestsSigned,
 			SSODescriptor:              saml.SSODescriptor{SingleLogoutServices: wrong(saml.SOAPBinding)},
 			SingleSignOnServices:       wrong(saml.HTTPArtifactBinding),
 			ArtifactResolutionServices: wrong(saml.HTTPArtifactBinding),
@@ -346,6 +376,10 @@ type outcome struct {
 	pan      any
 	// snap: copy of the wire form (URL text / HTML) taken when the call returned
 	snap string
+	// the metadata the SP published at that moment: signing certificate, AuthnRequestsSigned, error
+	cert       *x509.Certificate
+	advertised bool
+	certErr    error
 	// mw: what the middleware answered
 	status  int
 	relay   string // relay state the tracker handed out ("" unknown)
@@ -378,6 +412,8 @@ type parties struct {
 	mw *samlsp.Middleware
 	// the SignatureMethod samlsp's constructors left in place (only meaningful for viaOptions steps)
 	defMethod, mwDefMethod string
+	// key: the key pair the case (and so both constructors) started with; steps may roll it over
+	key string
 }
 
 func usesOptions(c Case) bool {
@@ -409,10 +445,10 @@ func optionsOf(c Case, md *saml.EntityDescriptor) samlsp.Options {
 // configures signing through samlsp.Options - what samlsp.DefaultServiceProvider returns.
 func newParties(c Case) *parties {
 	if !usesOptions(c) {
-		return &parties{sp: buildSP(c)}
+		return &parties{sp: buildSP(c), key: c.Key}
 	}
 	sp := samlsp.DefaultServiceProvider(optionsOf(c, buildSP0(c).IDPMetadata))
-	return &parties{sp: &sp, defMethod: sp.SignatureMethod}
+	return &parties{sp: &sp, defMethod: sp.SignatureMethod, key: c.Key}
 }
 
 func (p *parties) methodOf(c Case) string {
@@ -431,6 +467,7 @@ func (p *parties) middleware(c Case) (*samlsp.Middleware, error) {
 	if p.mw != nil {
 		return p.mw, nil
 	}
+	c.Key = p.key // constructed once, with the key pair the case started with
 	md := buildSP0(c).IDPMetadata
 	for i := range md.IDPSSODescriptors {
 		var sso []saml.Endpoint
@@ -491,6 +528,8 @@ func run(p *parties, c Case) (o outcome) {
 		o.snap = strings.Clone(o.wire())
 	}()
 	sp := p.sp
+	k := fix.Get(c.Key)
+	sp.Key, sp.Certificate = k.Key, k.Cert
 	sp.SignatureMethod = p.methodOf(c)
 	sp.HTTPClient = nil
 	switch c.Msg {
@@ -501,6 +540,7 @@ func run(p *parties, c Case) (o outcome) {
 			return o
 		}
 		m.ServiceProvider.SignatureMethod = p.methodOf(c)
+		m.ServiceProvider.Key, m.ServiceProvider.Certificate = k.Key, k.Cert
 		path := c.MWPath
 		if path == "" {
 			path = "/"
@@ -860,13 +900,41 @@ func check(c Case) pbt.Result {
 		o outcome
 	}
 	var steps []step
+	// publish: what a relying party fetching the SP's metadata right now would get
+	publish := func(sc Case, o *outcome) {
+		if expectation(sc) != "sign" {
+			return
+		}
+		sp := p.sp
+		if sc.Msg == "mw" && p.mw != nil {
+			sp = &p.mw.ServiceProvider
+		}
+		func() {
+			defer func() {
+				if r := recover(); r != nil {
+					o.certErr = fmt.Errorf("Metadata() panics: %v", r)
+				}
+			}()
+			o.cert, o.advertised, o.certErr = publishedCert(sp)
+		}()
+	}
+	rollover := false
 	for _, pr := range c.Prior {
 		pc := c
 		pc.Method, pc.Msg = pr.Method, pr.Msg
+		if pr.Key != "" && pr.Method != viaOptions {
+			pc.Key = pr.Key
+			rollover = rollover || pr.Key != c.Key
+		}
 		if pc.Artifact == "" {
 			pc.Artifact = "AAQAAMFbLinlXaCM+FIxiDwGOLAy2T71gbpO7ZhNzAgEANlB90ECfpNEVLg="
 		}
-		steps = append(steps, step{c: pc, o: run(p, pc)})
+		st := step{c: pc, o: run(p, pc)}
+		publish(pc, &st.o)
+		steps = append(steps, st)
+	}
+	if rollover {
+		classes = append(classes, "key-rollover")
 	}
 	if len(c.Prior) > 0 {
 		classes = append(classes, "sequence-on-one-sp")
@@ -875,7 +943,9 @@ func check(c Case) pbt.Result {
 	if c.AuthnContext != "" || c.ForceAuthn != "" {
 		classes = append(classes, "request-options")
 	}
-	steps = append(steps, step{c: c, o: run(p, c)})
+	last := step{c: c, o: run(p, c)}
+	publish(c, &last.o)
+	steps = append(steps, last)
 	for _, st := range steps {
 		if st.c.Msg == "mw" {
 			classes = append(classes, "mw:binding="+c.MWBinding+",idp-offers="+c.IDPOffers)
@@ -949,10 +1019,11 @@ func judge(p *parties, c Case, o outcome) (msg string, excluded string) {
 	if o.err != nil {
 		return fmt.Sprintf("%s: method %q fits key %s but creation fails: %v", c.Msg, c.Method, c.Key, o.err), ""
 	}
-	keep := sp.SignatureMethod
-	sp.SignatureMethod = c.Method
-	cert, advertised, err := publishedCert(sp)
-	sp.SignatureMethod = keep
+	_ = sp
+	cert, advertised, err := o.cert, o.advertised, o.certErr
+	if err == nil && cert == nil {
+		err = fmt.Errorf("harness: metadata was not fetched for this step")
+	}
 	if err != nil {
 		return fmt.Sprintf("published metadata: %v", err), ""
 	}
@@ -1161,6 +1232,57 @@ func enumViaOptions(_ string, emit func(Case)) {
 	}
 }
 
+// enumIDPWants: WantAuthnRequestsSigned absent / true / false x every message kind x RSA / ECDSA x method
+// configured explicitly or through samlsp.Options x middleware bindings.
+func enumIDPWants(_ string, emit func(Case)) {
+	ep := "https://idp.example.org/saml"
+	for _, want := range []string{"", "true", "false"} {
+		for _, k := range []string{"sp", "spec"} {
+			fit := rsaMethods[1]
+			if k == "spec" {
+				fit = ecMethods[1]
+			}
+			for _, m := range []string{fit, viaOptions} {
+				for _, kind := range msgs {
+					for _, b := range []string{"", "post"} {
+						if kind != "mw" && b != "" {
+							continue
+						}
+						emit(Case{Key: k, Method: m, Msg: kind, RelayState: "rs", NameID: "user@example.com", RequestID: "id-123", Artifact: "AAQAAMFb", SSO: ep + "?t=1", SLO: ep, IDPWant: want, MWBinding: b, MWPath: "/"})
+					}
+				}
+			}
+		}
+	}
+}
+
+// enumRollover: on ONE ServiceProvider a message under key A (its metadata fetched), then sp.Key +
+// sp.Certificate + SignatureMethod replaced by key B and every message kind made: each must verify
+// under the metadata published at that moment.
+func enumRollover(_ string, emit func(Case)) {
+	ep := "https://idp.example.org/saml"
+	fitOf := func(k string) string {
+		if isRSAKey(k) {
+			return rsaMethods[1]
+		}
+		return ecMethods[1]
+	}
+	ks := []string{"sp", "rsa3072", "spec", "p384"}
+	for _, a := range ks {
+		for _, b := range ks {
+			if a == b {
+				continue
+			}
+			for _, kind := range msgs {
+				for _, first := range []string{"logoutreq-post", "authn-redirect", "mw"} {
+					emit(Case{Key: b, Method: fitOf(b), Msg: kind, RelayState: "rs", NameID: "user@example.com", RequestID: "id-123", Artifact: "AAQAAMFb", SSO: ep, SLO: ep, MWPath: "/",
+						Prior: []Prior{{Key: a, Method: fitOf(a), Msg: first}, {Key: b, Method: fitOf(b), Msg: first}}})
+				}
+			}
+		}
+	}
+}
+
 // enumMetadataFeeds: every message kind x RSA / ECDSA x Intermediates 0/1/2 x ResponseLocation absent /
 // same / other on the IdP endpoints x the other fields that feed Metadata().
 func enumMetadataFeeds(_ string, emit func(Case)) {
@@ -1173,8 +1295,9 @@ func enumMetadataFeeds(_ string, emit func(Case)) {
 		for _, kind := range msgs {
 			for _, inter := range []int{0, 1, 2} {
 				for _, rl := range []string{"", "same", "other"} {
-					for _, mv := range []int{0, 7} {
-						emit(Case{Key: k, Method: m, Msg: kind, RelayState: "rs", NameID: "user@example.com", RequestID: "id-123", Artifact: "AAQAAMFb", SSO: ep, SLO: ep + "?slo=1", Intermediates: inter, RespLoc: rl, MetaVary: mv})
+					for mi, mv := range []int{0, 7} {
+						emit(Case{Key: k, Method: m, Msg: kind, RelayState: "rs", NameID: "user@example.com", RequestID: "id-123", Artifact: "AAQAAMFb", SSO: ep, SLO: ep + "?slo=1", Intermediates: inter, RespLoc: rl, MetaVary: mv,
+							IDPWant: []string{"", "false", "true"}[(inter+mi)%3], IDPLayout: []string{"", "later-descriptor"}[mi]})
 					}
 				}
 			}
@@ -1205,7 +1328,7 @@ var prop = &pbt.Prop[Case]{
 	Gen:   gen,
 	Check: check,
 	Reset: fix.Reset,
-	Enums: []pbt.Enum[Case]{{Name: "method-x-key-x-message-grid", Each: enumGrid}, {Name: "carriage-return-in-text-contents", Each: enumCRText}, {Name: "sequences-on-one-sp-and-request-options", Each: enumSequences}, {Name: "middleware-binding-x-idp-offers-x-method", Each: enumMiddleware}, {Name: "intermediates-x-responselocation-x-metadata-fields", Each: enumMetadataFeeds}, {Name: "signing-configured-through-samlsp-options-x-key-x-message", Each: enumViaOptions}},
+	Enums: []pbt.Enum[Case]{{Name: "method-x-key-x-message-grid", Each: enumGrid}, {Name: "carriage-return-in-text-contents", Each: enumCRText}, {Name: "sequences-on-one-sp-and-request-options", Each: enumSequences}, {Name: "middleware-binding-x-idp-offers-x-method", Each: enumMiddleware}, {Name: "intermediates-x-responselocation-x-metadata-fields", Each: enumMetadataFeeds}, {Name: "signing-configured-through-samlsp-options-x-key-x-message", Each: enumViaOptions}, {Name: "idp-wantauthnrequestssigned-x-message", Each: enumIDPWants}, {Name: "key-rollover-on-one-sp", Each: enumRollover}},
 	Assumptions: []string{
 		"SignatureMethod \"\" set by the application means signing is not configured and is outside this property; samlsp.Options{SignRequest: true} without an explicit method IS signing configured, for every key: the ServiceProvider / Middleware are then built by samlsp.DefaultServiceProvider / samlsp.New and judged under the method those leave in place",
 		"SP Intermediates (0..2 certificates) are configured; the verification certificate is the FIRST DER value of the first X509Certificate of the published signing key descriptor, as a relying party reads it; what the library appends after it in the same element is not judged",
@@ -1213,6 +1336,8 @@ var prop = &pbt.Prop[Case]{
 		"literal TAB / LF / CR inside attribute-position contents (request ID -> InResponseTo; entity ID -> SPNameQualifier) are counted, not judged: XML attribute-value normalisation, property silent",
 		"the ECDSA enveloped SignatureValue is judged by goxmldsig's own validation (the observation point the property names), whatever its DER / r||s layout",
 		"parameters following Signature in a redirect query are not judged",
+		"the IdP's descriptors carry WantAuthnRequestsSigned absent / true / false (and errorURL): signing configured on the SP means signed messages whatever the IdP says it wants",
+		"a step of a sequence may replace sp.Key + sp.Certificate (+ SignatureMethod) on the one ServiceProvider value; the SP's metadata is fetched right after every creation and each message is judged under the certificate published at that moment",
 		"the IdP metadata has one IDPSSODescriptor or a first descriptor offering only other bindings in front of it; destinations are not judged here (C12), except that the ArtifactResolve must go to the configured SOAP endpoint",
 		"middleware: which binding it picks is not judged, only that the AuthnRequest it emits verifies; a configured Binding the IdP does not offer may be refused; the default cookie tracker is used only with keys its JWT codec supports (RSA, P-256), its relay state is learnt from the saml_<index> cookie",
 	},
